@@ -569,6 +569,10 @@ package server
 //@   loop 4 invariant lock == 0 && !pending && mine <= nlogged && nflushed <= nlogged && client != nil
 //@   at-call atomic.Bool.Store [flag-written-under-lock] lock == 2
 //@   at-call rwlocker.Unlock [flag-means-flushed] flagInv(s)
+// C16 (segmentation): the pipeline reader takes at most len(pr.packet) bytes per ReadMessages call and netServe calls it
+// once per socket read; what does not fit is parked in client.in and looked at only after the *next* socket read. So a
+// socket read must never return more than the reader takes, or the tail of a pipeline waits for bytes that may never come.
+//@   at-call net.Conn.Read#1 [read-fits-the-pipeline-reader] len(arg0) <= len(client.pr.packet)
 // the two places where buffered replies (client.out) go to the socket
 //@   at-call net.Conn.Write#2 [reply-after-flush] mine <= nflushed
 //@   at-call io.Writer.Write#1 [reply-after-flush.going-live] mine <= nflushed
